@@ -247,8 +247,10 @@ def check_message(ctx, m, rng, nrandom, deadline):
 def check_pair(ctx, m1, m2, rng):
     """two messages one after the other through the same parser object (makeParser() in between, as on a kept-alive
     connection): the second must parse exactly as it does through a fresh parser, under a split too"""
-    if m1["framing"] == "close" or m1["kind"] != m2["kind"]:
+    if m1["kind"] != m2["kind"]:
         return
+    # (a first response that is read until the connection closes ends with the parser's close(); the parser object is
+    # then made again for the first response of the next connection)
     s1, s2 = m1["raw"], m2["raw"] + m2["tail"]
     alone = feed(m2, [s2])
     if alone["exc"] or not alone.get("done"):
